@@ -107,7 +107,7 @@ def run(ctx):
         # R03.5 every spawn yields an incarnation that actually runs its protocol: no spawn entry point drops the handle
         # of the loop it just spawned (on a spawner whose handle owns the task that cancels the actor before started())
         from props import c18
-        c18.check_consume(ctx, fx, cfg, 6 if cfg == "bare" else 8, "R03.5")
+        c18.check_consume(ctx, fx, cfg, 3, "R03.5")
         A = loops.lifecycle_alphabet()
         strategies = loops.find_refresh(fx)
         ctx.floor("R03.3", "RestartStrategy::refresh impls in cfg %s" % cfg, len(strategies), 3)
